@@ -173,8 +173,9 @@ def solve_one(task):
         else:
             log.append(("regex-cegar", "inconclusive", round(time.time() - t1, 3)))
     # --- staged premise selection (dropping hypotheses is sound for `unsat`) ----------------------
-    stage_budget = [2, 3, 4, 5, 5, 5]
-    for k, txt in enumerate(core or []):
+    stage_budget = [1, 3, 4, 5, 5, 5]
+    levels = list(core or [])
+    for k, txt in enumerate(levels):
         t1 = time.time()
         try:
             ctx = z3.Context()
@@ -267,25 +268,52 @@ def solve_one(task):
 
 
 def solve_all(vcs, tier="quick", jobs=None, scratch=None):
-    """Discharge VCs in a process pool.  Fills vc.result."""
+    """Discharge VCs in a process pool.  Fills vc.result.  Two passes: (1) goal-only and the full problem with short
+    budgets (most obligations end here; only two SMT texts are printed per VC), (2) premise-selection stages, other
+    seeds, cvc5 and the z3 CLI for what is left."""
     budgets = {"quick": dict(z3=10, cvc5=30, z3cli=20), "thorough": dict(z3=60, cvc5=120, z3cli=60)}[tier]
     if scratch:
         os.makedirs(scratch, exist_ok=True)
         budgets["tmpdir"] = scratch
-    tasks = []
-    for vc in vcs:
-        core = vc.levels()
-        tasks.append((vc.name, vc.smt2(), vc.kind, [str(c) for c in vc.inputs.values()], budgets, core))
     jobs = jobs or min(16, os.cpu_count() or 4)
+    ctx = mp.get_context("fork")
+
+    def run(tasks):
+        out = {}
+        if len(tasks) <= 2:
+            for t in tasks:
+                out[t[0]] = solve_one(t)
+        else:
+            with cf.ProcessPoolExecutor(max_workers=jobs, mp_context=ctx) as ex:
+                for r in ex.map(solve_one, tasks, chunksize=1):
+                    out[r["name"]] = r
+        return out
+
     results = {}
-    if len(tasks) <= 2:
-        for t in tasks:
-            results[t[0]] = solve_one(t)
-    else:
-        ctx = mp.get_context("fork")
-        with cf.ProcessPoolExecutor(max_workers=jobs, mp_context=ctx) as ex:
-            for r in ex.map(solve_one, tasks, chunksize=1):
-                results[r["name"]] = r
+    first = []
+    for vc in vcs:
+        names = [str(c) for c in vc.inputs.values()]
+        if vc.kind != "valid":
+            first.append((vc.name, vc.smt2(), vc.kind, names, budgets, None))
+            continue
+        s0 = z3.Solver()
+        s0.add(z3.Not(vc.goal))
+        from .state import _fix_order
+        quick_b = dict(budgets, z3=3, cvc5=0, z3cli=0, regex=budgets.get("regex", 30), first_pass=True)
+        first.append((vc.name, vc.smt2(), vc.kind, names, quick_b, [_fix_order(s0.to_smt2())]))
+    results.update(run(first))
+    second = []
+    for vc in vcs:
+        r = results[vc.name]
+        if vc.kind == "valid" and r["verdict"] == "unknown":
+            names = [str(c) for c in vc.inputs.values()]
+            second.append((vc.name, vc.smt2(), vc.kind, names, budgets, vc.levels()[1:]))
+    if second:
+        more = run(second)
+        for name, r in more.items():
+            r["log"] = results[name]["log"] + r["log"]
+            r["seconds"] += results[name]["seconds"]
+            results[name] = r
     for vc in vcs:
         vc.result = results[vc.name]
     return results
